@@ -9,7 +9,42 @@ from common import bits, unbits, fb, close, canon_hash
 ID = "C10"
 SECTIONS = ["ops"]          # the downstream formula k*a+c is propagated through the generated tables
 LEAN_MODULES = ["QExPy.Props.C10"]
-THEOREMS = []
+THEOREMS = ["QExPy.C10_mean_def",
+            "QExPy.C10_var_def",
+            "QExPy.C10_std_def",
+            "QExPy.C10_sem_def",
+            "QExPy.C10_meanPair",
+            "QExPy.C10_sum_dev_zero",
+            "QExPy.C10_var_nonneg",
+            "QExPy.C10_std_sq",
+            "QExPy.C10_var_alt",
+            "QExPy.C10_var_ne_zero_length",
+            "QExPy.C10_var_shift",
+            "QExPy.C10_var_scale",
+            "QExPy.C10_std_affine",
+            "QExPy.C10_mean_affine",
+            "QExPy.C10_cov_self",
+            "QExPy.C10_cauchy_schwarz",
+            "QExPy.C10_cov_bounded",
+            "QExPy.C10_corr_bounded",
+            "QExPy.C10_collinear",
+            "QExPy.C10_collinear'",
+            "QExPy.C10_inferred_accepted",
+            "QExPy.C10_wmean_decomp",
+            "QExPy.C10_wmean_optimal_ne",
+            "QExPy.C10_wmean_optimal",
+            "QExPy.C10_wmean_unique",
+            "QExPy.C10_perr_is_var",
+            "QExPy.C10_wmean_def",
+            "QExPy.C10_lastValSel_iff",
+            "QExPy.C10_lastErrSel_snoc",
+            "QExPy.C10_lastErrSel_isErr",
+            "QExPy.C10_selectors_data",
+            "QExPy.C10_selectors_from",
+            "QExPy.C10_selectors",
+            "QExPy.C10_hasZero_iff",
+            "QExPy.C10_selectors_zero_from",
+            "QExPy.C10_selectors_zero"]
 RULE = ("seeded reading arrays (n 2..40, lists and ndarrays, offsets up to 1e6, spreads down to "
         "1e-3, no / common / per-element uncertainties, occasionally a zero uncertainty), selector "
         "sequences of length 0-8, a downstream formula k*a+c read after every selector, a second "
